@@ -142,6 +142,35 @@ pub fn c12(g: &mut Gen) {
             g.push(format!("net {} validate {} {} {} 0", net.token(), n, s, hx(tol)), Tol::Tight, &format!("validate/{}/{}", n, net.obj), true);
         }
     }
+    // the tolerance rule at its boundary: identity networks (prediction = input exactly), differences exactly equal to,
+    // one unit in the last place below and above the tolerance, on both sides of the target, single and multi output
+    {
+        let ident = |n: usize| -> NetSpec {
+            let w = Tensor::double((0..n).map(|i| (0..n).map(|j| if i == j { 1.0 } else { 0.0 }).collect()).collect());
+            NetSpec { input: Shape::Single(n), builds: vec![Build::Layer(InnerSpec::Dense { out: n, act: "linear".into(), bias: false, dropout: None, w, b: None })],
+                skipacc: "add".into(), loopacc: "mean".into(), opt: None, obj: "mse".into(), clamp: None }
+        };
+        let tol = 0.25f32;
+        let below = f32::from_bits(tol.to_bits() - 1);
+        let above = f32::from_bits(tol.to_bits() + 1);
+        let offs = [tol, -tol, below, -below, above, -above, 0.0, 2.0, -2.0];
+        // multi-output: 3 components per sample
+        let net3 = ident(3);
+        let mut v = Vec::new();
+        for a in 0..offs.len() {
+            let x = vec![0.5f32, -1.0, 2.0];
+            let t: Vec<f32> = (0..3).map(|c| x[c] + offs[(a + c) % offs.len()]).collect();
+            v.push(format!("{} {}", qt(&Tensor::single(x)), qt(&Tensor::single(t))));
+        }
+        g.push(format!("net {} validate {} {} {} 0", net3.token(), offs.len(), v.join(" "), hx(tol)), Tol::Tight, "validate/tolerance-boundary/multi", true);
+        // single output
+        let net1 = ident(1);
+        let mut v = Vec::new();
+        for o in offs.iter() {
+            v.push(format!("{} {}", qt(&Tensor::single(vec![1.0])), qt(&Tensor::single(vec![1.0 + *o]))));
+        }
+        g.push(format!("net {} validate {} {} {} 0", net1.token(), offs.len(), v.join(" "), hx(tol)), Tol::Tight, "validate/tolerance-boundary/single", true);
+    }
     // networks with loop connections, skip connections and feedback blocks: predict / predict_batch / validate must
     // still be the final activation of forward and its faithful aggregations
     for variant in 0..g.n(6, 24) {
@@ -526,6 +555,20 @@ pub fn c11(g: &mut Gen) {
                 skipacc: "add".into(), loopacc: "mean".into(), opt: None, obj: "mse".into(), clamp: None };
             let x = input_for(g, &net.input);
             g.push(format!("net {} predict {}", net.token(), qt(&x)), Tol::Tight, &format!("dilated-block/{}x{}/L{}", h, w, loops), true);
+        }
+    }
+    // … and shape-preserving blocks with rectangular kernels and per-axis paddings (kernel, stride and padding each in
+    // its own place, per axis), for convolution and deconvolution
+    for (h, w, k, p) in [(4usize, 5usize, (3usize, 5usize), (1usize, 2usize)), (5, 3, (5, 1), (2, 0)), (3, 6, (1, 3), (0, 1))] {
+        for (loops, i, o, acc) in [(2usize, true, false, "add"), (3, false, true, "mean")] {
+            let c = InnerSpec::Conv { filters: 1, act: "tanh".into(), k, s: (1, 1), p, d: (1, 1), dropout: None, ks: vec![weights(g, &Shape::Triple(1, k.0, k.1), 0.4)] };
+            let dc = InnerSpec::Deconv { filters: 1, act: "tanh".into(), k, s: (1, 1), p, dropout: None, ks: vec![weights(g, &Shape::Triple(1, k.0, k.1), 0.4)] };
+            for inner in [c, dc] {
+                let net = NetSpec { input: Shape::Triple(1, h, w), builds: vec![Build::Feedback { inner: vec![inner], loops, inskips: i, outskips: o, acc: acc.into() }],
+                    skipacc: "add".into(), loopacc: "mean".into(), opt: None, obj: "mse".into(), clamp: None };
+                let x = input_for(g, &net.input);
+                g.push(format!("net {} predict {}", net.token(), qt(&x)), Tol::Tight, &format!("rectangular-block/{}x{}/L{}", h, w, loops), true);
+            }
         }
     }
     // a block whose output shape differs from its input shape is refused; zero loops are refused
